@@ -128,6 +128,10 @@ class ConcV(BaseV):
     def concrete(self, name, x):
         return x
 
+    def notrace(self):
+        import contextlib
+        return contextlib.nullcontext()
+
 
 class SymV(BaseV):
     """symbolic back end (only usable inside vt.sx.explore)"""
@@ -208,6 +212,12 @@ class SymV(BaseV):
         """ask the solver for one model value of x under the current path condition"""
         from crosshair.core import realize
         return realize(x)
+
+    def notrace(self):
+        """run set-up code (class creation ...) without symbolic tracing; symbolic values may be stored by that code
+        but must not be branched on"""
+        from crosshair.tracers import NoTracing
+        return NoTracing()
 
     def witness(self):
         from crosshair.core import deep_realize
